@@ -1,7 +1,7 @@
 #!/bin/bash
 # tools/seedgo.sh <name>...: confirm + run each finished seed, one summary line each
 export GOFLAGS=-mod=mod GOPROXY=off GOSUMDB=off GOTOOLCHAIN=local
-cd /verif
+cd /verif; mkdir -p work
 for n in "$@"; do
   id=${n:0:3}
   python3 tools/seedrun.py $n $id > work/seedrun_$n.log 2>&1
